@@ -296,8 +296,16 @@ def offgrid(ctx, cfg, d, field, u0s, t0, t1, tol, dt0):
     ts = np.asarray(sol.t)
     if len(ts) < 3 or not np.all(np.isfinite(np.asarray(sol.u.mean[0]))):
         return
-    k = int(ctx.rng.integers(0, len(ts) - 2))
-    tc = float(ts[k] + (ts[k + 1] - ts[k]) * ctx.rng.uniform(0.2, 0.8))
+    # the first interval (its left end is the *initial* marginal, calibrated separately) and a random one
+    for k in sorted({0, int(ctx.rng.integers(0, len(ts) - 2))}):
+        tc = float(ts[k] + (ts[k + 1] - ts[k]) * ctx.rng.uniform(0.2, 0.8))
+        _offgrid_at(ctx, cfg, d, field, u0s, t0, t1, tol, dt0, objs, sol, tc)
+
+
+def _offgrid_at(ctx, cfg, d, field, u0s, t0, t1, tol, dt0, objs, sol, tc):
+    import jax
+    import jax.numpy as jnp
+
     off = objs["solver"].offgrid_marginals(jnp.asarray(tc), solution=sol)
     ref = solve_save_at(objs, [t0, tc, t1], tol, dt0)
     got = jax.tree_util.tree_map(lambda s: s[1], ref.u)
@@ -361,7 +369,9 @@ def run(ctx):
         hs = [float(2.0 ** ctx.rng.integers(-7, 0)) * float(gen.pick(ctx.rng, [1.0, 0.75, 1.5])) for _ in range(int(ctx.rng.integers(1, 3)))]
         interp_refine(ctx, cfg, d, field, u0s, t0, hs)
         if it % 2 == 0 and strat != "fixedinterval":
-            cfa = dataclasses.replace(cfg, q=min(cfg.q, 4), init="exact", damp=0.0, constraint_init=False, diffuse=0, prior="iwp")
+            # (inexact initial states included: the value stored at t0 and the first interval depend on the calibration of
+            # the *initial* marginal - seeded change C05-s6)
+            cfa = dataclasses.replace(cfg, q=min(cfg.q, 4), init=str(gen.pick(ctx.rng, ["exact", "inexact"])), damp=0.0, constraint_init=False, diffuse=0, prior="iwp")
             fld = problems.random_field(ctx.rng, d, order, max_degree=1, linear=True)
             tol = float(10.0 ** ctx.rng.uniform(-6, -2))
             t1 = t0 + float(gen.pick(ctx.rng, [0.5, 1.0, 2.0]))
